@@ -709,48 +709,47 @@ class TrajectoryStore:
             self.index_dataset.sync()
 
     def add(self, trajectory: Trajectory) -> int:
-        """Add a trajectory to the store and return its index."""
+        """Add a trajectory to the store and return its index.
+
+        The trajectory is checked completely before anything is changed, so a
+        trajectory that is rejected leaves the store exactly as it was."""
         if not self._write_enabled:
             raise RuntimeError(
                 'Cannot add trajectory to TrajectoryStore not opened in write mode'
             )
 
-        # As soon as we've added one trajectory to the store, we have fixed the
-        # data schema, which we check for each new trajectory.
-        if len(self._trajectories) > 0:
-            proto = next(iter(self._trajectories.values()))
-            if hash(trajectory) != hash(proto):
-                raise ValueError(
-                    'All trajectories in a TrajectoryStore must have the same '
-                    'data fields'
-                )
+        # Check the trajectory against the store: data schema, consistent use
+        # of flight IDs, required values and species.
+        has_flight_id = self._check_trajectory(trajectory)
 
-        # Decide on whether or not we can index the store, checking consistency
-        # on this decision with each trajectory we add.
-        has_flight_id = (
-            hasattr(trajectory, 'flight_id') and trajectory.flight_id is not None
-        )
-        if self.indexable is not None and has_flight_id != self.indexable:
-            raise ValueError(
-                'All trajectories in an indexable TrajectoryStore must have '
-                'flight_id field, and non-indexable stores must not have it'
-            )
-        if self.indexable is None:
+        # Decide on whether or not we can index the store. (This needs to be
+        # known when the NetCDF files are created.)
+        undecided = self.indexable is None
+        if undecided:
             self.indexable = has_flight_id
 
-        # Maintain count of trajectories in store for indexing.
         saved_index = self._next_index
-        self._trajectories[saved_index] = trajectory
+        try:
+            # If this is the first trajectory added to the store, we might
+            # need to create the NetCDF files.
+            if self._file_creation_pending:
+                self._create(trajectory)
+                self._file_creation_pending = False
+
+            # Write the trajectory data to the output NetCDF file.
+            if self.nc_linked:
+                self._write_data(traj=trajectory, index=saved_index)
+
+            # Only now does the trajectory become part of the store. (For an
+            # in-memory store this raises if an eviction would be needed.)
+            self._trajectories[saved_index] = trajectory
+        except Exception:
+            if undecided and not self.nc_linked and len(self._trajectories) == 0:
+                self.indexable = None
+            raise
+
+        # Maintain count of trajectories in store for indexing.
         self._next_index += 1
-
-        # If this is the first trajectory added to the store, we might need to
-        # create the NetCDF files.
-        if self._file_creation_pending:
-            self._create()
-            self._file_creation_pending = False
-
-        # Write the trajectory data to the output NetCDF file.
-        self._write_trajectory(saved_index)
 
         # Whenever we add a trajectory, the trajectory index is no longer up to
         # date. For efficiency, we do not reindex immediately, deferring either
@@ -760,6 +759,62 @@ class TrajectoryStore:
             self.index_stale = True
 
         return saved_index
+
+    def _check_trajectory(self, trajectory: Trajectory) -> bool:
+        """Check that a trajectory can be added to the store without changing
+        anything. Returns whether the trajectory has a flight ID."""
+
+        # As soon as we've added one trajectory to the store, we have fixed the
+        # data schema, which we check for each new trajectory.
+        if self.nc_linked:
+            if trajectory._fieldsets != set(self._nc.keys()):
+                raise ValueError(
+                    'All trajectories in a TrajectoryStore must have the same '
+                    'data fields'
+                )
+        if len(self._trajectories) > 0:
+            proto = next(iter(self._trajectories.values()))
+            if hash(trajectory) != hash(proto):
+                raise ValueError(
+                    'All trajectories in a TrajectoryStore must have the same '
+                    'data fields'
+                )
+
+        # Flight IDs must be used consistently.
+        has_flight_id = (
+            hasattr(trajectory, 'flight_id') and trajectory.flight_id is not None
+        )
+        if self.indexable is not None and has_flight_id != self.indexable:
+            raise ValueError(
+                'All trajectories in an indexable TrajectoryStore must have '
+                'flight_id field, and non-indexable stores must not have it'
+            )
+
+        # The trajectory must fit into the trajectory cache.
+        if trajectory.nbytes > self._trajectories.maxsize:
+            raise ValueError('Trajectory is too large for the trajectory cache')
+
+        # Required values must be present, and species must fit into the
+        # species dimension of the NetCDF files, if these already exist.
+        for name, field in trajectory._data_dictionary.items():
+            val = getattr(trajectory, name)
+            if val is None:
+                if field.required:
+                    raise ValueError(
+                        f'Data field "{name}" is None at index {self._next_index}'
+                    )
+                continue
+            if self.nc_linked and Dimension.SPECIES in field.dimensions:
+                for fs_name, nc_file in self._nc.items():
+                    if name in FieldSet.from_registry(fs_name):
+                        for sp in val:
+                            if sp not in (nc_file.species or []):
+                                raise ValueError(
+                                    f'Species {sp.name} in data field "{name}" '
+                                    'is not in the species dimension of the '
+                                    'NetCDF file'
+                                )
+        return has_flight_id
 
     @staticmethod
     def merge(
@@ -911,7 +966,7 @@ class TrajectoryStore:
         """Iterator over trajectories in store in index order."""
         return _TrajectoryStoreIterator(self)
 
-    def _create(self):
+    def _create(self, proto: Trajectory | None = None):
         """Create a new NetCDF file (or files) for writing trajectories.
 
         There is one NetCDF group per field set, and more than one field set
@@ -922,12 +977,13 @@ class TrajectoryStore:
         """
 
         # We cannot create the NetCDF file until we know what field sets are
-        # involved. For that we need at least one trajectory.
-        assert len(self._trajectories) > 0
-
-        # Get a prototype trajectory: all trajectories in the store must have
-        # the same field sets, so it doesn't matter which one we take.
-        proto = next(iter(self._trajectories.values()))
+        # involved. For that we need at least one trajectory: either the one
+        # passed in (the first one being added) or one already in the store.
+        # All trajectories in the store must have the same field sets, so it
+        # doesn't matter which one we take.
+        if proto is None:
+            assert len(self._trajectories) > 0
+            proto = next(iter(self._trajectories.values()))
 
         # Determine the field sets stored in the base NetCDF file (those not in
         # associated files).
